@@ -30,7 +30,7 @@ CHECKS = {
    "Hold-heavy seeded histories (annotations toggled directly and through the real kubectl-eds bodies, new nodes joining): an active-role sync that read rolling-update-paused=true issues no update deletion, with rollout-frozen=true neither creates nor update-deletes; a canary-role sync that read a paused canary creates nothing; state equals the documented function; resumption is part of the convergence phase. Scripted hold scenarios (paused, frozen, both, canary paused before/after its pods; seeded sizes, modes and orders) judge what must still happen while held (pods for nodes that join while only paused), what must not, and resumption within the round bound after the release.",
    T+"'as read' = annotations on the EDS object returned to that sync.", "4/C08"),
  "C09": ("exploration", "differential oracle (rampBound) over calculateMaxCreation via shim and over ManageDeployment's create decisions + spacing monitor in the simulator",
-   "Product of elapsed x interval x additive increase x maxParallelPodCreation x nodes at exact instants; creates of a sync bounded by rampBound measured from the Active condition of the status it was given; spacing of acting syncs >= reconcileFrequency-1s and at most maxUnavailable update deletions per sync judged on every simulated history (incl. failing pod calls and bursts of reconciles).",
+   "Product of elapsed x interval x additive increase x maxParallelPodCreation x nodes at exact instants; creates of a sync bounded by rampBound measured from the Active condition of the status it was given; spacing of acting syncs >= reconcileFrequency-1s, at most maxUnavailable update deletions per sync and the creation ramp (measured from the Active condition the sync read) judged on every simulated history (incl. failing pod calls and bursts of reconciles).",
    T+"non-positive intervals belong to C16.", "4/C09"),
  "C10": ("exploration", "differential oracle over CreatePodFromDaemonSetReplicaSet + compareCurrentPodWithNewPod round trip and single perturbations; input replica set compared with a deep copy after every call; monitors on real syncs of simulated histories with node override annotations and ExtendedDaemonsetSettings that change while pods exist: resources precedence of every created pod against what the sync read, no update deletion of an own pod whose creation inputs read the same, no outdated pod left at the fixpoint, labels/namespace",
    "20k (quick) / 200k (thorough) seeded (template, node, setting, mode) tuples: pinning in every affinity term, owner, labels, hash, default tolerations, resources precedence, wire round trip judged up to date, every single perturbation judged outdated. Simulator engines (schedules S and N): overrides and settings created, edited and removed by the user, the setting controller interleaved, several pods per sync; rules resources-precedence, spurious-replace, outdated-recognised (fixpoint).",
